@@ -1,13 +1,77 @@
 def net_nontrivial(cmd, inp, impl, prev):
     return (" msg:" in impl) or (" dis:0" in impl) or (" rx:" in impl)
 
-TB = "Trusted: Lean kernel (axioms propext, Classical.choice, Quot.sound only, audited per theorem); the trace validation (scripts run against the real client on loopback: enumerated fault spaces + sampled long streams), the harness' scripted panel / trace printer and the Lean driver runtime; the extractor for the regenerated constants (frame limit 500000, deadlines 2000 ms, probe buffer 1000). Outside the model: the Go scheduler, kernel TCP, real time (timing clauses are checked on traces with a 400 ms tolerance, never proved); io.ReadFull / bufio.ReadString / net.Conn deadlines / channels enter by their documented contracts. "
+
+def _c12_conn_unchecked(client, toks, k, impl_toks):
+    """a connection of a C12 script that is neither compared with the model (its reply lies within 300 ms of the end of
+    the 2 s window: the driver's B:tight-margin) nor judged by the monitor (outside the property's domain): mirrors
+    Driver/Net.compareConnC12 + Spec.Net.checkConnC12, which tag such a record B:unchecked"""
+    writes = [bytes.fromhex(t[1:]) for t in toks if t.startswith("w")]
+    closes = any(t in ("c", "r") for t in toks)
+    sched = 0
+    for t in toks:
+        if t[0] in "wcr":
+            break
+        if t[0] == "s":
+            sched += int(t[1:])
+    if not writes and not closes:
+        sched = sum(int(t[1:]) for t in toks if t[0] == "s")
+    t_probe = t_reply = None
+    for t in impl_toks:
+        body, _, ms = t.rpartition("@")
+        f = body.split(":")
+        if t_probe is None and f[0] in ("rx", "rxn") and len(f) > 1 and f[1] == str(k):
+            t_probe = int(ms)
+        if t_reply is None and ((f[0] == "tx" and len(f) > 1 and f[1] == str(k)) or (f[0] == "cl" and f[1:] == [str(k)])):
+            t_reply = int(ms)
+    delay = (t_reply - t_probe) if (t_probe is not None and t_reply is not None and t_reply >= t_probe) else (0 if t_probe is not None and t_reply is not None else sched)
+    tight = (bool(writes) or closes) and abs(delay - 2000) < 300
+    if not tight:
+        return False
+    if len(writes) > 1:
+        return True
+    reply = b"".join(writes) if writes else None
+    if reply is not None and delay + 50 >= 2000:
+        return delay < 2050
+    if reply is None and closes and delay < 2050:
+        return True
+    if not reply:
+        return False      # silence: judged
+    if len(reply) >= 4 and int.from_bytes(reply[:4], "little") + 4 == len(reply):
+        return reply[4:] != b"\x08\x02"      # a well-formed frame other than the acknowledge: no verdict fixed
+    text = all(32 <= c < 127 or c in (9, 10, 13) for c in reply)
+    if text and (reply.startswith(b"RDY\n") or reply.startswith(b"map=")):
+        return False
+    if text:
+        return not client      # other text / ErrorMsg: named for the reconnecting client only
+    return True
+
+
+def c12_nontrivial(cmd, inp, impl, prev):
+    if not net_nontrivial(cmd, inp, impl, prev):
+        return False
+    # records with a connection that is neither compared nor judged (driver tag B:unchecked) are not counted
+    try:
+        toks = inp.split(" ")
+        conns, cur = [], None
+        for t in toks[1:]:
+            if t == "conn":
+                cur = []
+                conns.append(cur)
+            elif cur is not None:
+                cur.append(t)
+        it = impl.split(" ")
+        return not any(_c12_conn_unchecked(cmd == "net.c12c", c, k, it) for k, c in enumerate(conns))
+    except Exception:
+        return True
+
+TB = "Trusted: Lean kernel (axioms propext, Classical.choice, Quot.sound only, audited per theorem); the trace validation (scripts run against the real client on loopback: enumerated fault spaces + sampled long streams), the harness' scripted panel / trace printer and the Lean driver runtime; the extractor for the regenerated constants (frame limit 500000, deadlines 2000 ms, probe buffer 1000) and for the ordered list of Set...Deadline call sites of ConnectToPanel (Gen/NetSites.lean: function, loop depth, branch path, first-in-loop, reads before; interpreted by Net.cfgOfSites). Outside the model: the Go scheduler, kernel TCP, real time (timing clauses are checked on traces with a 400 ms tolerance, never proved); io.ReadFull / bufio.ReadString / net.Conn deadlines / channels enter by their documented contracts. "
 
 PROP = dict(
-    family="c12", session_start=None, trivial=net_nontrivial, shrink=False, confirm_rerun=True, level="proof",
-    n=dict(quick=245, thorough=520), timeout=1500,
+    family="c12", session_start=None, trivial=c12_nontrivial, shrink=False, confirm_rerun=True, level="proof",
+    n=dict(quick=176, thorough=560), timeout=1500,
     exhaustive=dict(quick=False, thorough=False),
-    rule='one record = one probe exchange: 16 reply classes (ack frame, other frames, RDY, map=, ErrorMsg=, other text, short / mismatching binary, two frames) x delays {0, 0.5, 1.9 s} (thorough: 7 delays) x {followed by close or not} x {ConnectToPanel, AutoDetectIfPanelEncodingIsBinary}, plus replies reaching the probe Read in two segments 300 ms apart (acknowledge frame cut after 1, 2, 4, 5 bytes, RDY and map= cut; compared with the model, not judged: B:skip-reply-in-several-segments), plus silence for the whole window (then nothing / late ack / late RDY / close) and close inside the window; non-trivial always; distinct = distinct record text',
+    rule='one record = one call of an entry point against a scripted panel with 1-3 connections, every connection judged by what the panel replies on THAT connection. (A) reconnects: the reconnecting client probes every new connection (the panel drops the earlier ones: binary after an ack, ASCII by RDY, ASCII by silence for the whole window, ErrorMsg + close), the stand-alone detector is called once per connection; on the 2nd / 3rd connection reply class (ack, RDY, map=, ErrorMsg=) x delay {0.6, 1.2, 1.8 s} (thorough: full cross product with delay 0) after every kind of earlier connection, both entry points. (B) one probe exchange: the reply classes the property names - ack frame, RDY (alone / with more behind it), map= (one / several lines), and for the client ErrorMsg= (4 forms) and other text (3) - x delays {0, 0.6, 1.2, 1.8 s} (thorough: 8 delays up to 1.8 s; nothing is scheduled within 100 ms of the end of the window, the monitor does not judge within 50 ms of it) x {followed by close or not} x {ConnectToPanel, AutoDetectIfPanelEncodingIsBinary}; silence for the whole window (then nothing / late ack / late RDY / close). Few records are outside the domain (compared with the model, not judged, never near the end of the window): replies without a fixed verdict (other well-formed frame, short / mismatching binary, two frames; text replies to the detector), replies reaching the probe Read in two segments 300 ms apart (B:skip-reply-in-several-segments), close inside the window. A connection that is neither compared (within 300 ms of the end of the window the monitor decides alone: B:tight-margin) nor judged is tagged B:unchecked by the driver and such a record is not counted as non-trivial (none occurs in the generated scripts unless a delay slips by > 150 ms); otherwise non-trivial always; distinct = distinct record text',
     trusted_base=["io.ReadFull, bufio.ReadString, strings.TrimSpace (Go's unicode.IsSpace set; model: Base/Bytes.trimSpace), net.Conn read deadlines, Go channels and proto.Marshal/Unmarshal enter the model by their contracts (opaque where possible)",
                   "scripted TCP panel on loopback (harness/netpanel.go): what it sent and when is taken from its own trace"],
     assumptions=["atomicity of the LTS labels (one label = one Go statement group; a conn.Write of one chunk is one label)", "time in the LTS is urgent (at or after an armed read deadline only the timeout can happen); a conn.Write error other than a timeout is sticky; a writer whose quit channel is closed has returned before the retry period ends", "timing clauses hold with a tolerance of 400 ms; scripts keep >= 300 ms from every deadline (others are tagged tight-margin and judged by the monitor alone)"],
@@ -15,7 +79,7 @@ PROP = dict(
 
 CLAIM = dict(
     category="proof",
-    text='Lean theorems about the decision logic of both entry points, for every reply (any bytes): C12.probe_bytes (= 02 00 00 00 08 01 given marshal(ping) = 08 01, which the harness observes), C12.classifyClient_iff, C12.detector_iff, C12.ack_frame_is_binary_both, C12.silence_rdy_map_are_ascii_both (ASCII and exactly one LF written), C12.client_any_other_text_is_ascii; timing, with the probe deadlines regenerated from both sources: C12.timeouts_are_two_seconds, C12.late_is_silence (a reply at or after the deadline is not seen: ASCII, one LF, both), C12.ack_before_timeout_is_binary (a well-formed frame at any delay below the deadline: binary, nothing written, both), C12.entry_points_see_same_reply / entry_points_agree_before_min_timeout (below the smaller deadline both see the same reply and agree on every named reply class), C12.between_timeouts_disagree; error text: C12.errormsg_extracted, errormsg_passed_to_onconnect (LF-terminated), errormsg_passed_to_onconnect_unterminated, errormsg_absent. Observation outside the domain (the property ranges over reply class x delay x entry point, not over TCP segmentation of the reply; decision of the project lead): C12.split_ack_disagree - an acknowledge frame whose first segment has 1..5 bytes makes the client say ASCII (and write a LF) and the detector say binary; reproduced on the real client, compared with the model, not judged. Tied to the code by trace validation of both real entry points against a scripted panel; Spec monitor checkC12 on every trace (probe is exactly one ping frame; ack below 2 s -> binary and nothing more written; silence / RDY / map= -> ASCII and exactly one LF; client: any other text -> ASCII, ErrorMsg text handed to onconnect). Partial: a reply is what one Read returns; replies within 50 ms of the 2 s deadline are not constrained; real time outside the model.',
+    text='Lean theorems about the decision logic of both entry points, for every reply (any bytes): C12.probe_bytes (= 02 00 00 00 08 01 given marshal(ping) = 08 01, which the harness observes), C12.classifyClient_iff, C12.detector_iff, C12.ack_frame_is_binary_both, C12.silence_rdy_map_are_ascii_both (ASCII and exactly one LF written), C12.client_any_other_text_is_ascii; timing, with the probe deadlines regenerated from both sources: C12.timeouts_are_two_seconds / timeouts_are_the_window_of_the_property_text (the 2000 ms of the monitor are the number of the property text, not read from the code), C12.probe_window_is_the_constant_deadline (the first Set...Deadline call site regenerated from ConnectToPanel - in the connection loop, before the probe Read - is SetReadDeadline(now + 2000 ms) with a constant argument: the same window on every reconnect; a window kept in a variable, seeded change C12-9, breaks the obligation), C12.late_is_silence (a reply at or after the deadline is not seen: ASCII, one LF, both), C12.ack_before_timeout_is_binary (a well-formed frame at any delay below the deadline: binary, nothing written, both), C12.entry_points_see_same_reply / entry_points_agree_before_min_timeout (below the smaller deadline both see the same reply and agree on every named reply class), C12.between_timeouts_disagree; error text: C12.errormsg_extracted, errormsg_passed_to_onconnect (LF-terminated), errormsg_passed_to_onconnect_unterminated, errormsg_absent. Observation outside the domain (the property ranges over reply class x delay x entry point, not over TCP segmentation of the reply; decision of the project lead): C12.split_ack_disagree - an acknowledge frame whose first segment has 1..5 bytes makes the client say ASCII (and write a LF) and the detector say binary; reproduced on the real client, compared with the model, not judged. Tied to the code by trace validation of both real entry points against a scripted panel; Spec monitor checkC12 on every trace, every connection of a call judged on its own, also after reconnects (probe is exactly one ping frame on every connection; ack below 2 s -> binary and nothing more written; silence / RDY / map= -> ASCII and exactly one LF; client: any other text -> ASCII, ErrorMsg text handed to onconnect). Partial: a reply is what one Read returns; replies within 50 ms of the 2 s deadline are not constrained; real time outside the model.',
     note=TB,
     technique="Lean 4 proof (state machines / LTS of the protocol logic, induction over streams and executions) + trace validation of the real client against a scripted TCP panel (Spec monitors on every trace, deterministic model outcome on margin-safe scripts)",
 )
